@@ -127,7 +127,7 @@ def unfold_rules(thm):
             out.append(z3.Implies(cond, t == val))
         return out
 
-    return [rule] + lemma_rules(thm)
+    return [rule, map_rule] + lemma_rules(thm)
 
 
 def _lemma_b58val_nonneg(t):
@@ -150,8 +150,88 @@ def lemma_rule_wrapper(rule):
 
 # ------------------------------------------------------------------------------ comprehension maps
 
-_MAPS = {}
+_MAPS = {}   # decl name -> (elem_in, elem_out, evaluator)
 
 
 def seq_map(it, xs, e, g, fr):
-    raise Unsupported("comprehension over symbolic list not implemented yet")
+    """[elt for target in xs] over a symbolic-length list xs.
+
+    The result is the application of a map symbol named after the (alpha-normalised) element expression;
+    equal comprehensions over equal lists are therefore equal terms.  Defining axioms (added per occurrence):
+    len(map(xs)) = len(xs) and, quantified, map(xs)[i] = elt(xs[i])."""
+    import hashlib
+    from . import engine
+    if not isinstance(g.target, ast.Name):
+        raise Unsupported("comprehension target over a symbolic list must be a name")
+    tname = g.target.id
+    # free variables of the element expression other than the target must be concrete (captured in the key)
+    free = sorted({n.id for n in ast.walk(e.elt) if isinstance(n, ast.Name)} - {tname})
+    cap = []
+    for n in free:
+        if n in fr.locals:
+            v = fr.locals[n]
+            if sym.is_sym(v):
+                raise Unsupported(f"comprehension over a symbolic list captures symbolic variable {n!r}")
+            cap.append((n, repr(v)))
+    norm = ast.dump(e.elt).replace(f"id='{tname}'", "id='_x'")
+    key = hashlib.sha256((norm + repr(cap) + xs.elem + str(xs.elen)).encode()).hexdigest()[:10]
+    # evaluate the element expression once on a probe element to learn the element type
+    probe = it.seq_index(xs, VInt(z3.Int("probe!" + key)))
+    sub = engine.Frame(dict(fr.locals), fr.globals, fr.fname)
+    sub.locals[tname] = probe
+    ctx = it.ctx
+    npc = len(ctx.pc)
+    ctx.solver.push()
+    try:
+        val = it.eval(e.elt, sub)
+    finally:
+        del ctx.pc[npc:]
+        ctx.solver.pop()
+    from .models import is_int, is_bytes
+    if is_bytes(val):
+        out_elem, out_sort = "bytes", LBytesS
+        elen = to_vbytes(val).klen()
+    elif is_int(val):
+        out_elem, out_sort, elen = "int", BytesS, None
+    else:
+        raise Unsupported("comprehension element type")
+    name = f"map_{key}"
+    f = sym.uf(name, xs.z.sort(), out_sort)
+
+    def elt_at(itp, xz, i):
+        """element expression evaluated on xs[i] (as a z3 term)"""
+        x = itp.seq_index(VSeq(xz, xs.elem, xs.elen), VInt(i))
+        sub2 = engine.Frame(dict(fr.locals), fr.globals, fr.fname)
+        sub2.locals[tname] = x
+        v = itp.eval(e.elt, sub2)
+        return to_vbytes(v).z if out_elem == "bytes" else zi(v)
+
+    _MAPS[name] = (elt_at, it.repo)
+    return VSeq(f(xs.z), out_elem, elen)
+
+
+def map_rule(t):
+    """len(map(xs)) == len(xs);  forall i in range: map(xs)[i] == elt(xs[i])."""
+    if t.decl().kind() != z3.Z3_OP_UNINTERPRETED:
+        return []
+    ent = _MAPS.get(t.decl().name())
+    if ent is None:
+        return []
+    from . import engine
+    elt_at, repo = ent
+    xz = t.arg(0)
+    out = [z3.Length(t) == z3.Length(xz)]
+    i = z3.Int("i!" + t.decl().name())
+
+    def run(ctx):
+        itp = engine.Interp(ctx, repo)
+        return elt_at(itp, xz, i)
+    try:
+        paths = engine.explore(run, base_pc=[z3.And(i >= 0, i < z3.Length(xz))])
+    except Unsupported:
+        return out
+    for p in paths:
+        if p.kind == "return":
+            cond = z3.And(*p.pc)
+            out.append(z3.ForAll([i], z3.Implies(cond, t[i] == p.value)))
+    return out
